@@ -435,36 +435,100 @@ pub fn observe(tcp: bool, steps: &[Step], base: std::time::Instant) -> Vec<(Obs,
 pub const SHIFTS_MS: [u64; 3] = [1, 86_400_000, 1_000_000_000];
 
 /// C20: the same history under a shifted time base, on another thread, interleaved with an
-/// unrelated agent, must give identical observations (instants relative to the base).
+/// unrelated agent, near the wall clock, or handed to another thread half way must give identical
+/// observations (instants relative to the base).
+///
+/// Ambient state would typically live in a thread-local or a static that an *earlier* use has
+/// set, so the order matters and is fixed: the reference is taken on a freshly spawned thread that
+/// has never run an agent; all variants run on a second fresh thread, latest time base first, so
+/// that every later variant runs "after a use at later instants".  Nothing depends on what the
+/// calling (pool) thread did before, which keeps a finding reproducible from its replay file.
 pub fn differential_variants(tcp: bool, steps: &[Step]) -> Vec<(String, bool, String)> {
     let base = base_instant();
-    let reference = observe(tcp, steps, base);
-    let mut out = Vec::new();
-    let again = observe(tcp, steps, base);
-    out.push(("replayed unchanged on a fresh agent".to_string(), again == reference, first_diff(&reference, &again)));
-    for d in SHIFTS_MS {
-        let shifted = observe(tcp, steps, base + Duration::from_millis(d));
-        out.push((format!("time base shifted by {d} ms"), shifted == reference, first_diff(&reference, &shifted)));
-    }
-    // other thread
+    type Ret = (Vec<(Obs, Post)>, Vec<(String, bool, String)>, Option<Real>);
+    let spawn = |f: Box<dyn FnOnce() -> Ret + Send>| -> Ret { std::thread::Builder::new().stack_size(256 << 10).spawn(f).expect("spawn").join().unwrap() };
+    let half = steps.len() / 2;
+    // thread 1 (fresh): the reference run is the first thing it ever does; then the first half of
+    // the history on the agent that will be handed over
     let st: Vec<Step> = steps.to_vec();
-    let other = std::thread::spawn(move || observe(tcp, &st, base)).join().unwrap();
-    out.push(("replayed on another thread".to_string(), other == reference, first_diff(&reference, &other)));
-    // interleaved with an unrelated agent running another script at other instants
-    let mut r = Real::new(tcp, base);
-    let mut noise = Real::new(!tcp, base);
-    let mut inter = Vec::new();
-    for (i, s) in steps.iter().enumerate() {
-        let n1 = Step { act: Act::Send { id: (i % 3) as u8, dest: 1, seal: Seal::Sha1, shape: 1 }, now: s.now + 12_345 };
-        let _ = noise.exec(&n1);
-        let o = r.exec(s);
-        let n2 = Step { act: Act::Poll { when: When::Now, order: 0 }, now: s.now + 99_999 };
-        let _ = noise.exec(&n2);
-        let p = r.post();
-        inter.push((o, p));
+    let (mut t1, _, handed) = spawn(Box::new(move || {
+        let mut obs = observe(tcp, &st, base);
+        let mut r = Real::new(tcp, base);
+        for s in &st[..half] {
+            let o = r.exec(s);
+            let p = r.post();
+            obs.push((o, p));
+        }
+        (obs, Vec::new(), Some(r))
+    }));
+    let first_half: Vec<(Obs, Post)> = t1.split_off(steps.len());
+    let reference = t1;
+    // thread 2 (fresh): all variants, latest time base first
+    let st: Vec<Step> = steps.to_vec();
+    let refc = reference.clone();
+    let (_, mut out, _) = spawn(Box::new(move || {
+        let steps = st;
+        let reference = refc;
+        let mut out = Vec::new();
+        for d in SHIFTS_MS.iter().rev() {
+            let shifted = observe(tcp, &steps, base + Duration::from_millis(*d));
+            out.push((format!("time base shifted by {d} ms"), shifted == reference, first_diff(&reference, &shifted)));
+        }
+        let again = observe(tcp, &steps, base);
+        out.push(("replayed unchanged on a thread that ran later histories before".to_string(), again == reference, first_diff(&reference, &again)));
+        // interleaved with an unrelated agent running another script an hour ahead
+        let mut r = Real::new(tcp, base);
+        let mut noise = Real::new(!tcp, base);
+        let mut inter = Vec::new();
+        for (i, s) in steps.iter().enumerate() {
+            let n1 = Step { act: Act::Send { id: (i % 3) as u8, dest: 1, seal: Seal::Sha1, shape: 1 }, now: s.now + 3_600_000 };
+            let _ = noise.exec(&n1);
+            let o = r.exec(s);
+            let n2 = Step { act: Act::Poll { when: When::Now, order: 0 }, now: s.now + 3_699_999 };
+            let _ = noise.exec(&n2);
+            let p = r.post();
+            inter.push((o, p));
+        }
+        out.push(("interleaved with an unrelated agent".to_string(), inter == reference, first_diff(&reference, &inter)));
+        // time bases around the real clock: "now" and an hour ago (an ambient clock read used as a
+        // fallback or clamp shows here, BASE being 100 000 s in the future)
+        let wall = std::time::Instant::now();
+        let near = observe(tcp, &steps, wall);
+        out.push(("time base at the wall clock".to_string(), near == reference, first_diff(&reference, &near)));
+        if let Some(past) = wall.checked_sub(Duration::from_secs(3600)) {
+            let o = observe(tcp, &steps, past);
+            out.push(("time base at the wall clock".to_string(), o == reference, first_diff(&reference, &o)));
+        }
+        (Vec::new(), out, None)
+    }));
+    // thread 3 (fresh): drives an unrelated agent an hour ahead, then receives the agent of
+    // thread 1 and runs the second half of the history on it
+    if steps.len() >= 2 {
+        let second: Vec<Step> = steps[half..].to_vec();
+        let mut r = handed.unwrap();
+        let t0 = steps[half].now;
+        let (rest, _, _) = spawn(Box::new(move || {
+            let mut noise = Real::new(tcp, base);
+            let _ = noise.exec(&Step { act: Act::Send { id: 0, dest: 1, seal: Seal::None, shape: 0 }, now: t0 + 3_600_000 });
+            let _ = noise.exec(&Step { act: Act::Poll { when: When::Now, order: 0 }, now: t0 + 3_600_100 });
+            let o: Vec<(Obs, Post)> = second.iter().map(|s| { let o = r.exec(s); let p = r.post(); (o, p) }).collect();
+            (o, Vec::new(), None)
+        }));
+        let mut obs = first_half;
+        obs.extend(rest);
+        out.push(("handed to another thread half way".to_string(), obs == reference, first_diff(&reference, &obs)));
     }
-    out.push(("interleaved with an unrelated agent".to_string(), inter == reference, first_diff(&reference, &inter)));
     out
+}
+
+fn clause_of(name: &str) -> String {
+    if name.starts_with("time base shifted") {
+        "time-shift".to_string()
+    } else if name.starts_with("time base at the wall clock") {
+        "wall-clock-base".to_string()
+    } else {
+        name.replace(' ', "-")
+    }
 }
 
 fn first_diff(a: &[(Obs, Post)], b: &[(Obs, Post)]) -> String {
@@ -476,12 +540,39 @@ fn first_diff(a: &[(Obs, Post)], b: &[(Obs, Post)]) -> String {
     String::new()
 }
 
+/// Thread creation is the dominant cost of the differential check and contends in the kernel, so
+/// the number of differential checks in flight is limited (VERIF_DIFF_PAR, default 4).
+fn diff_gate() -> &'static (std::sync::Mutex<usize>, std::sync::Condvar) {
+    static G: std::sync::OnceLock<(std::sync::Mutex<usize>, std::sync::Condvar)> = std::sync::OnceLock::new();
+    G.get_or_init(|| {
+        let n = std::env::var("VERIF_DIFF_PAR").ok().and_then(|s| s.parse().ok()).unwrap_or(4usize);
+        (std::sync::Mutex::new(n.max(1)), std::sync::Condvar::new())
+    })
+}
+
 fn differential(s: &Node, acc: &mut Acc) {
+    let (m, cv) = diff_gate();
+    {
+        let mut g = m.lock().unwrap();
+        while *g == 0 {
+            g = cv.wait(g).unwrap();
+        }
+        *g -= 1;
+    }
+    struct Release;
+    impl Drop for Release {
+        fn drop(&mut self) {
+            let (m, cv) = diff_gate();
+            *m.lock().unwrap() += 1;
+            cv.notify_one();
+        }
+    }
+    let _release = Release;
     for (name, same, diff) in differential_variants(s.spec.tcp, &s.hist) {
         acc.evaluations += 1;
         acc.validated += 1;
         if !same {
-            let clause = if name.starts_with("time base") { "time-shift".to_string() } else { name.replace(' ', "-") };
+            let clause = clause_of(&name);
             acc.violation(Violation {
                 property: "C20".into(),
                 signature: format!("C20/{clause}"),
@@ -492,7 +583,7 @@ fn differential(s: &Node, acc: &mut Acc) {
             });
         }
     }
-    acc.outcome("history replayed under 6 variants");
+    acc.outcome("history replayed under 9 variants");
 }
 
 pub fn replay(prop: &str, rp: &Value) -> Vec<Violation> {
@@ -508,7 +599,7 @@ pub fn replay(prop: &str, rp: &Value) -> Vec<Violation> {
     if rp.get("variant").and_then(|v| v.as_str()) == Some("differential") {
         for (name, same, diff) in differential_variants(tcp, &steps) {
             if !same {
-                let clause = if name.starts_with("time base") { "time-shift".to_string() } else { name.replace(' ', "-") };
+                let clause = clause_of(&name);
                 acc.violation(Violation { property: "C20".into(), signature: format!("C20/{clause}"), what: format!("replies differ when the history is {name}"), expected: "identical replies".into(), observed: diff, replay: rp.clone() });
             }
         }
